@@ -158,8 +158,152 @@ fn check_graph(ctx: &mut Ctx, family: &str, n: usize, edges: &[(usize, usize)], 
     }
 }
 
+/// maximum number of internally vertex-disjoint s-t paths in an undirected graph (unit vertex
+/// capacities, augmenting paths on the split graph) — an independent max-flow for the Menger certificate
+fn disjoint_paths(n: usize, edges: &[(usize, usize)], s: usize, t: usize) -> usize {
+    // node 2v = v_in, 2v+1 = v_out
+    let m = 2 * n;
+    let mut cap: std::collections::HashMap<(usize, usize), i64> = std::collections::HashMap::new();
+    let mut adj: Vec<Vec<usize>> = vec![vec![]; m];
+    let mut add = |a: usize, b: usize, c: i64, cap: &mut std::collections::HashMap<(usize, usize), i64>, adj: &mut Vec<Vec<usize>>| {
+        *cap.entry((a, b)).or_insert(0) += c;
+        cap.entry((b, a)).or_insert(0);
+        if !adj[a].contains(&b) {
+            adj[a].push(b);
+        }
+        if !adj[b].contains(&a) {
+            adj[b].push(a);
+        }
+    };
+    let big = 1_000_000;
+    for v in 0..n {
+        add(2 * v, 2 * v + 1, if v == s || v == t { big } else { 1 }, &mut cap, &mut adj);
+    }
+    for &(a, b) in edges {
+        if a != b {
+            add(2 * a + 1, 2 * b, big, &mut cap, &mut adj);
+            add(2 * b + 1, 2 * a, big, &mut cap, &mut adj);
+        }
+    }
+    let (src, dst) = (2 * s + 1, 2 * t);
+    let mut flow = 0;
+    loop {
+        let mut prev = vec![usize::MAX; m];
+        prev[src] = src;
+        let mut q = std::collections::VecDeque::from([src]);
+        while let Some(x) = q.pop_front() {
+            if x == dst {
+                break;
+            }
+            for &y in &adj[x] {
+                if prev[y] == usize::MAX && cap[&(x, y)] > 0 {
+                    prev[y] = x;
+                    q.push_back(y);
+                }
+            }
+        }
+        if prev[dst] == usize::MAX {
+            return flow;
+        }
+        let mut y = dst;
+        while y != src {
+            let x = prev[y];
+            *cap.get_mut(&(x, y)).unwrap() -= 1;
+            *cap.get_mut(&(y, x)).unwrap() += 1;
+            y = x;
+        }
+        flow += 1;
+        if flow > n {
+            return flow;
+        }
+    }
+}
+
+/// family 'recorded': the networks simplify hands to min_vertex_cut_undirected on corpus inputs
+fn recorded_networks(ctx: &mut Ctx) {
+    use crate::props::common3d::corpus;
+    use crate::refmodel::dsym::{from_dsym, to_partial_dsym};
+    use rust_dsymbols::verif_hooks;
+    for (text, s) in corpus() {
+        if !ctx.take() {
+            continue;
+        }
+        let nets = std::panic::catch_unwind(std::panic::AssertUnwindSafe(|| {
+            let cov = rust_dsymbols::delaney3d::pseudo_toroidal_cover(&to_partial_dsym(&s))?;
+            let _ = from_dsym(&cov)?;
+            verif_hooks::set_network_recording(true);
+            let _ = rust_dsymbols::simplify::simplify(&cov);
+            let n = verif_hooks::take_networks();
+            verif_hooks::set_network_recording(false);
+            Some(n)
+        }));
+        verif_hooks::set_network_recording(false);
+        let nets = match nets {
+            Ok(Some(n)) => n,
+            _ => continue, // C15/C16's business
+        };
+        let mut seen = BTreeSet::new();
+        for (edges, src, snk) in nets {
+            let mut und: BTreeSet<(usize, usize)> = BTreeSet::new();
+            for &(a, b) in &edges {
+                und.insert((a.min(b), a.max(b)));
+            }
+            if !seen.insert((und.clone(), src, snk)) {
+                continue;
+            }
+            let n = edges.iter().flat_map(|&(a, b)| [a, b]).chain([src, snk]).max().unwrap_or(0) + 1;
+            let case = json!({"family": "recorded", "from": text, "n": n, "edges": und.iter().collect::<Vec<_>>(), "labels": (0..n).collect::<Vec<_>>(), "source": src, "sink": snk, "undirected": true});
+            ctx.announce(&case);
+            if src == snk || und.contains(&(src.min(snk), src.max(snk))) {
+                continue;
+            }
+            let touched: BTreeSet<usize> = und.iter().flat_map(|&(a, b)| [a, b]).collect();
+            if !touched.contains(&src) || !touched.contains(&snk) {
+                continue;
+            }
+            let eff: Vec<(usize, usize)> = und.iter().flat_map(|&(a, b)| [(a, b), (b, a)]).collect();
+            let k = disjoint_paths(n, &und.iter().cloned().collect::<Vec<_>>(), src, snk);
+            ctx.count(k >= 1);
+            ctx.ops(1);
+            ctx.add("recorded_networks", 1);
+            ctx.max("recorded_network_vertices", n as i64);
+            let weight = 10_000 + n as u64;
+            let e2: Vec<(usize, usize)> = und.iter().cloned().collect();
+            match ctx.guard(|| min_vertex_cut_undirected(e2, src, snk)) {
+                Err(m) => ctx.violation("panic:vertex-cut", case, m, weight),
+                Ok(c) => {
+                    let cv: BTreeSet<usize> = c.cut_vertices.iter().cloned().collect();
+                    let mut why = None;
+                    if cv.len() != c.cut_vertices.len() {
+                        why = Some("a cut vertex is repeated".to_string());
+                    } else if cv.contains(&src) || cv.contains(&snk) {
+                        why = Some("the cut contains the source or the sink".into());
+                    } else if cv.iter().any(|v| !touched.contains(v)) {
+                        why = Some("a cut vertex is not a vertex of the graph".into());
+                    } else {
+                        let seen_v = reach(n, &eff, src, &BTreeSet::new(), &cv);
+                        let inside: BTreeSet<usize> = c.inside_vertices.iter().cloned().chain([src]).collect();
+                        let exp: BTreeSet<usize> = (0..n).filter(|&v| seen_v[v]).collect();
+                        if seen_v[snk] {
+                            why = Some("the sink is still reachable after removing the cut".into());
+                        } else if cv.len() != k {
+                            why = Some(format!("cut has {} vertices but there are {} internally disjoint paths (Menger)", cv.len(), k));
+                        } else if inside != exp {
+                            why = Some("inside vertices (+ source) are not the vertices reachable from the source".into());
+                        }
+                    }
+                    if let Some(w) = why {
+                        ctx.violation("vertex-cut", case, format!("cut_vertices = {:?}: {}", c.cut_vertices, w), weight);
+                    }
+                }
+            }
+        }
+    }
+}
+
 fn run(ctx: &mut Ctx) {
     let tier = ctx.tier;
+    recorded_networks(ctx);
     let sparse = [7usize, 2, 11, 5, 3, 13, 1];
     let ident: Vec<usize> = (0..8).collect();
     // family digraph
